@@ -413,7 +413,7 @@ class MetaAppClock(MetaClock):
         def init_func(cls):
             if _libsc3.main is _libsc3.RtMain:
                 cls._sched_lock = _libsc3.main._main_lock
-                cls._tick_cond = threading.Condition()
+                cls._tick_cond = threading.Condition(cls._sched_lock)
                 cls._scheduler = Scheduler(cls, drift=True, recursive=False)
                 cls._thread = threading.Thread(
                     target=cls._run,
@@ -455,12 +455,13 @@ class AppClock(Clock, metaclass=MetaAppClock):
         cls._run_sched = True
         seconds = None
         while cls._run_sched:
-            with cls._sched_lock:
+            # The tick and the wait share one lock (released only inside
+            # wait), otherwise a sched() between them is not seen by either.
+            with cls._tick_cond:  # many notify one wait
                 seconds = cls._tick()  # First tick for free, returns None
                 if isinstance(seconds, (int, float))\
                 and not isinstance(seconds, bool):
                     seconds = seconds - cls._scheduler.seconds  # tick returns abstime (elapsed)
-            with cls._tick_cond:  # many notify one wait
                 if not cls._run_sched:
                     return
                 cls._tick_cond.wait(seconds)  # if seconds is None waits for notify
@@ -490,9 +491,8 @@ class AppClock(Clock, metaclass=MetaAppClock):
                 return
             ClockTask(delta, cls, item, _libsc3.main._clock_scheduler)
         else:
-            with cls._sched_lock:
-                cls._scheduler.sched(delta, item)
             with cls._tick_cond:
+                cls._scheduler.sched(delta, item)
                 cls._tick_cond.notify()
 
     @classmethod
